@@ -784,9 +784,9 @@ static long one_pcap = -1;      /* >= 0 while a capacity case runs: the capacity
 static struct { char sig[160]; uint64_t n; } sigtab[MAX_SIGS];
 static int nsigs;
 
-/* emit a finding; only the first two occurrences of a signature per process are written out
- * in full, the rest is counted (the driver sums the counts) */
-static void finding(const char *sig, const struct tb *text, const struct tb *one)
+/* count a finding; only the first two occurrences of a signature per process are written out
+ * in full (return value: the text is wanted), the rest is counted (the driver sums the counts) */
+static bool finding_count(const char *sig)
 {
     st.findings++;
     any_violation = 1;
@@ -803,12 +803,15 @@ static void finding(const char *sig, const struct tb *text, const struct tb *one
         }
     }
     sigtab[k].n++;
+    return verbose || sigtab[k].n <= 2;
+}
+
+static void finding_emit(const char *sig, const struct tb *text, const struct tb *one)
+{
     if (verbose) {
         out_f("VIOLATION %s\n  %s\n", sig, text->p);
         return;
     }
-    if (sigtab[k].n > 2)
-        return;
     out_f("{\"t\":\"finding\",\"sig\":");
     out_jstr(sig, strlen(sig));
     out_f(",\"batch\":%d,\"case\":%llu,\"text\":", batch_id, (unsigned long long)case_idx);
@@ -816,6 +819,12 @@ static void finding(const char *sig, const struct tb *text, const struct tb *one
     out_f(",\"one\":");
     out_jstr(one->p, one->n);
     out_f("}\n");
+}
+
+static void finding(const char *sig, const struct tb *text, const struct tb *one)
+{
+    if (finding_count(sig))
+        finding_emit(sig, text, one);
 }
 
 static void info(const char *key, const struct tb *text)
@@ -1248,6 +1257,8 @@ static void parse_finding(const char *sig, const struct fdesc *f, const char *s,
     struct tb t = { 0 }, one = { 0 };
     char why[600];
     va_list ap;
+    if (!finding_count(sig))
+        return;
     va_start(ap, fmt);
     vsnprintf(why, sizeof why, fmt, ap);
     va_end(ap);
@@ -1259,7 +1270,7 @@ static void parse_finding(const char *sig, const struct fdesc *f, const char *s,
     tb_pres(&t, f, p);
     tb_f(&t, "; %s", why);
     one_parse(&one, s, n);
-    finding(sig, &t, &one);
+    finding_emit(sig, &t, &one);
     free(t.p);
     free(one.p);
 }
@@ -1745,10 +1756,12 @@ static void make_finding(const char *clause, const char *shape, const struct fde
     struct tb t = { 0 }, one = { 0 };
     char sig[200], why[600];
     va_list ap;
+    snprintf(sig, sizeof sig, "C12/%s/%s%s%s", clause, make_family(f, h), shape[0] ? "/" : "", shape);
+    if (!finding_count(sig))
+        return;
     va_start(ap, fmt);
     vsnprintf(why, sizeof why, fmt, ap);
     va_end(ap);
-    snprintf(sig, sizeof sig, "C12/%s/%s%s%s", clause, make_family(f, h), shape[0] ? "/" : "", shape);
     tb_make_call(&t, f, h, ux, ux_len, port, cap);
     if (r->rc == 0) {
         tb_f(&t, " returned 0 and the buffer holds ");
@@ -1760,7 +1773,7 @@ static void make_finding(const char *clause, const char *shape, const struct fde
         tb_f(&t, " returned %d/%s", r->rc, ename(r->err));
     tb_f(&t, "; %s", why);
     tb_one_make(&one, f, h, ux, ux_len, port, cap);
-    finding(sig, &t, &one);
+    finding_emit(sig, &t, &one);
     free(t.p);
     free(one.p);
 }
